@@ -2,18 +2,32 @@
 // E1 explicit-state search over write histories on a real kv.DB (notifications enabled) with a
 // mocked clock. After every step a subscriber is simulated from every start offset on the DB
 // itself and on a replica that replayed the same log; trimming rounds are interleaved as ops.
+//
+// Two alphabets are searched one after the other (two seqx specs):
+//   - "db+replica": single/composite requests that are always applied, sessions, trimming rounds;
+//   - "refusals": multi-operation requests including requests that ProcessWrite refuses as a whole
+//     after some of their operations were processed (kv.IsInvalidRequestError: the leader has logged
+//     the entry, every replica skips it), followed by further writes; checked on the live DB, on
+//     a lock-step replica and on a replica that is reopened before every request and re-applies
+//     the trailing refused entries of the log like the controllers do.
 package main
 
 import (
 	"context"
+	"errors"
 	"flag"
 	"fmt"
+	"math"
 	"os"
+	"runtime/pprof"
 	"sort"
+	"strconv"
 	"strings"
 	"sync"
 	"sync/atomic"
 	"time"
+
+	"github.com/cockroachdb/pebble/vfs"
 
 	time2 "github.com/oxia-db/oxia/common/time"
 	"github.com/oxia-db/oxia/proto"
@@ -46,6 +60,15 @@ var (
 	rAB   = rng{"a", "b"}    // {a}
 	rAC   = rng{"a", "c"}    // {a, b}
 	rASub = rng{"a/", "a//"} // {a/b}
+	rST   = rng{"s", "t"}    // every key under the sequence prefix: s-<n>, s-<n>-<m>, s-$
+)
+
+// sequence prefix of the "refusals" alphabet and a key under it that is no sequence number
+// ('$' < '0': it is the last key below "s-<max>." only while no generated key exists)
+const (
+	seqPrefix  = "s"
+	seqBadKey  = "s-$"
+	seqMaxUint = uint64(math.MaxUint64)
 )
 
 func inRange(r rng, key string) bool {
@@ -56,6 +79,8 @@ func inRange(r rng, key string) bool {
 		return key == "a" || key == "b"
 	case rASub:
 		return key == "a/b"
+	case rST:
+		return strings.HasPrefix(key, seqPrefix+"-")
 	}
 	return false // internal ranges never cover user keys
 }
@@ -69,52 +94,191 @@ type rec struct {
 	cts, mts uint64
 }
 
+type config struct {
+	name string
+	ops  []opDef
+	lockstep bool // a replica that applies every request right after the primary and is never reopened
+	cold     bool // a replica that is closed and reopened before every request
+	nQuick   int  // the quick tier searches the first nQuick operations of the alphabet (0 = all)
+	// memo: histories whose last step has passed the stream oracles. seqx replays the (validated)
+	// prefix on a fresh instance for every successor; the subscriber simulation and the model
+	// guards are not repeated for those steps (same history, same verdict), only for the new one.
+	memo     sync.Map
+	memoUpTo int // histories shorter than this are remembered (max depth of the search)
+}
+
+func (in *inst) validated() bool {
+	_, ok := in.cfg.memo.Load(fmt.Sprint(in.hist))
+	return ok
+}
+
+// oracles runs the model guards (after a request) and the subscriber simulation for the step
+// that was just applied, unless this very history has passed them before.
+func (in *inst) oracles(withGuards bool) *ev.Violation {
+	if in.validated() {
+		return nil
+	}
+	if withGuards {
+		if v := in.guards(); v != nil {
+			return v
+		}
+	}
+	if v := in.subscribers(); v != nil {
+		return v
+	}
+	if len(in.hist) < in.cfg.memoUpTo {
+		in.cfg.memo.Store(fmt.Sprint(in.hist), struct{}{})
+	}
+	return nil
+}
+
 type inst struct {
-	db, replica kv.DB
+	cfg         *config
+	db          kv.DB    // live leader (never reopened, trimmed)
+	stores      []*store // primary[, lock-step replica][, reopened replica]
+	cold        *store
 	clock       *time2.MockedClock
 	now         int64
+
+	// the log: every request handed to ProcessWrite, applied or refused
+	log     []*proto.WriteRequest
+	refused []error // per offset: nil = applied, else the sentinel the request was refused with
+	// user keys the refused requests had written before they were refused
+	leftover map[string]bool
 
 	// model
 	recs     map[string]rec
 	verNext  int64
 	sessLive bool
 	sessId   int64 // last created session id, -1 if none
-	batches  []string // validated rendering of the batch of every applied request
+	batches  []string // validated rendering of the batch of every applied request ("REFUSED …" for a refused one)
 	ts       []int64
-	present  []bool // batch still stored on the primary
+	present  []bool // batch still stored on the primary (never for a refused request)
 	everTrim bool
 	hist     []int
 }
 
 var (
+	nRefused, nRefusedAfterOps, nWritesAfterRefused, nReopens atomic.Int64
+	nReplayedRefused, nTrimGap, nColdReads, nResumeInGap      atomic.Int64
+	nRefusedKind                                              sync.Map // sentinel text -> *atomic.Int64
 	nReads, nBatchesChecked, nReplicaReads                    atomic.Int64
 	nTrims, nTrimsRemoving, nTrimmedBatches, nResumeAfterTrim atomic.Int64
 	nEmptyBatches, nNonEmptyBatches, nInternalOnlyRequests    atomic.Int64
 	nTypes                                                    [4]atomic.Int64
 )
 
-func newDB() kv.DB {
-	d, err := kv.NewDB("ns", shard, oxh.NewMemFactory(), time.Hour, &time2.MockedClock{})
+// A store is one replica's database on a private in-memory filesystem that survives Close, so
+// that the database can be reopened (kv.VerifFSHook hands the registered filesystem to Pebble).
+var (
+	fsReg    sync.Map // dataDir -> vfs.FS
+	storeCtr atomic.Int64
+)
+
+func init() {
+	kv.VerifFSHook = func(dataDir string, _ bool, def vfs.FS) vfs.FS {
+		if v, ok := fsReg.Load(dataDir); ok {
+			return v.(vfs.FS)
+		}
+		return def
+	}
+}
+
+type store struct {
+	name  string
+	dir   string
+	f     kv.Factory
+	db    kv.DB
+	clock time2.Clock
+}
+
+// keepOpenFactory: the quick tier restarts only the database layer (kv.DB with its in-memory
+// state: version id counter, notification tracker, whatever a request leaves behind) on the
+// storage engine that stays open; the thorough tier closes and reopens Pebble as well.
+type keepOpenFactory struct {
+	kv.Factory
+	cur *keepOpenKV
+}
+
+type keepOpenKV struct{ kv.KV }
+
+func (*keepOpenKV) Close() error { return nil }
+
+func (f *keepOpenFactory) NewKV(namespace string, shardId int64) (kv.KV, error) {
+	if f.cur == nil {
+		k, err := f.Factory.NewKV(namespace, shardId)
+		if err != nil {
+			return nil, err
+		}
+		f.cur = &keepOpenKV{k}
+	}
+	return f.cur, nil
+}
+
+func (f *keepOpenFactory) Close() error {
+	if f.cur != nil {
+		_ = f.cur.KV.Close()
+	}
+	return f.Factory.Close()
+}
+
+var hardReopen = os.Getenv("VERIF_TIER") == "thorough" || os.Getenv("VERIF_C17_HARD_REOPEN") != ""
+
+func newStore(name string, clock time2.Clock) *store {
+	dir := fmt.Sprintf("/verifmem/c17-%d", storeCtr.Add(1))
+	fsReg.Store(dir, vfs.NewMem())
+	var f kv.Factory
+	f, err := kv.NewPebbleKVFactory(&kv.FactoryOptions{DataDir: dir, CacheSizeMB: 1, InMemory: true})
 	if err != nil {
 		panic(err)
 	}
-	return d
-}
-
-func newInst() *inst {
-	in := &inst{clock: &time2.MockedClock{}, now: t0Millis, recs: map[string]rec{}, sessId: -1}
-	in.clock.Set(in.now)
-	var err error
-	if in.db, err = kv.NewDB("ns", shard, oxh.NewMemFactory(), time.Hour, in.clock); err != nil {
+	if !hardReopen {
+		f = &keepOpenFactory{Factory: f}
+	}
+	s := &store{name: name, dir: dir, f: f, clock: clock}
+	if s.db, err = kv.NewDB("ns", shard, f, time.Hour, clock); err != nil {
 		panic(err)
 	}
-	in.replica = newDB()
+	return s
+}
+
+func (s *store) reopen() error {
+	if err := s.db.Close(); err != nil {
+		return err
+	}
+	d, err := kv.NewDB("ns", shard, s.f, time.Hour, s.clock)
+	if err != nil {
+		return err
+	}
+	s.db = d
+	return nil
+}
+
+func (s *store) close() {
+	_ = s.db.Close()
+	_ = s.f.Close()
+	fsReg.Delete(s.dir)
+}
+
+func newInst(cfg *config) *inst {
+	in := &inst{cfg: cfg, clock: &time2.MockedClock{}, now: t0Millis, recs: map[string]rec{}, sessId: -1, leftover: map[string]bool{}}
+	in.clock.Set(in.now)
+	in.stores = []*store{newStore("primary", in.clock)}
+	in.db = in.stores[0].db
+	if cfg.lockstep {
+		in.stores = append(in.stores, newStore("replica", &time2.MockedClock{}))
+	}
+	if cfg.cold {
+		in.cold = newStore("reopened replica", &time2.MockedClock{})
+		in.stores = append(in.stores, in.cold)
+	}
 	return in
 }
 
 func (in *inst) Close() {
-	_ = in.db.Close()
-	_ = in.replica.Close()
+	for _, s := range in.stores {
+		s.close()
+	}
 }
 
 func viol(key, msg string) *ev.Violation { return &ev.Violation{Key: key, Message: msg} }
@@ -210,11 +374,80 @@ func buildOps() []opDef {
 	return ops
 }
 
-var ops = buildOps()
+func seqPut(deltas ...uint64) *proto.PutRequest {
+	return &proto.PutRequest{Key: seqPrefix, Value: []byte("v"), PartitionKey: oxh.Str("p"), SequenceKeyDelta: deltas}
+}
+
+// buildRefusalOps: the "refusals" alphabet. Keys {a, b} and the sequence prefix s. A sequential
+// put is refused (and with it the whole request, whatever was processed before) when the
+// existing sequence has more suffixes than the request has deltas (ErrMissingSequenceDeltas),
+// when the last key under the prefix is no sequence number (ErrInvalidSequenceKey: s-$), when
+// the sum overflows (ErrSequenceOverflow) and when the first delta is 0 (ErrSequenceDeltaIsZero;
+// the public RPC layer filters that one, the replicas treat it like the others). Which of the
+// requests below are refused therefore depends on the history.
+func buildRefusalOps() []opDef {
+	wr := func(name string, f func() *proto.WriteRequest) opDef {
+		return opDef{name: name, build: func(*inst, int64) *proto.WriteRequest { return f() }}
+	}
+	return []opDef{
+		wr("put(a)", func() *proto.WriteRequest { return &proto.WriteRequest{Puts: []*proto.PutRequest{put("a", nil)}} }),
+		wr("delete(a)", func() *proto.WriteRequest { return &proto.WriteRequest{Deletes: []*proto.DeleteRequest{del("a")}} }),
+		wr("deleteRange[s,t)", func() *proto.WriteRequest {
+			return &proto.WriteRequest{DeleteRanges: []*proto.DeleteRangeRequest{dr(rST)}}
+		}),
+		wr("put(a)+put(b)+delete(a)", func() *proto.WriteRequest {
+			return &proto.WriteRequest{Puts: []*proto.PutRequest{put("a", nil), put("b", nil)}, Deletes: []*proto.DeleteRequest{del("a")}}
+		}),
+		wr("seqPut(s,[1])", func() *proto.WriteRequest { return &proto.WriteRequest{Puts: []*proto.PutRequest{seqPut(1)}} }),
+		wr("seqPut(s,[1,1])", func() *proto.WriteRequest { return &proto.WriteRequest{Puts: []*proto.PutRequest{seqPut(1, 1)}} }),
+		wr("put(a)+seqPut(s,[1])", func() *proto.WriteRequest {
+			return &proto.WriteRequest{Puts: []*proto.PutRequest{put("a", nil), seqPut(1)}}
+		}),
+		wr("put(b)+seqPut(s,[max])+delete(a)", func() *proto.WriteRequest {
+			return &proto.WriteRequest{Puts: []*proto.PutRequest{put("b", nil), seqPut(seqMaxUint)}, Deletes: []*proto.DeleteRequest{del("a")}}
+		}),
+		wr("put(a)+put(b)+seqPut(s,[0])+put(a)", func() *proto.WriteRequest {
+			return &proto.WriteRequest{Puts: []*proto.PutRequest{put("a", nil), put("b", nil), seqPut(0), put("a", nil)}}
+		}),
+		wr("put(s-$)", func() *proto.WriteRequest { return &proto.WriteRequest{Puts: []*proto.PutRequest{put(seqBadKey, nil)}} }),
+		{name: "trim(oldest stored batch expires)", trim: 2},
+		// thorough tier only (see config.nQuick)
+		wr("put(b)", func() *proto.WriteRequest { return &proto.WriteRequest{Puts: []*proto.PutRequest{put("b", nil)}} }),
+		wr("deleteRange[a,c)", func() *proto.WriteRequest {
+			return &proto.WriteRequest{DeleteRanges: []*proto.DeleteRangeRequest{dr(rAC)}}
+		}),
+		{name: "trim(all but the last batch expire)", trim: 3},
+	}
+}
+
+var (
+	cfgSeq     = &config{name: "db+replica", ops: buildOps(), lockstep: true}
+	cfgRefusal = &config{name: "refusals", ops: buildRefusalOps(), cold: true, nQuick: 11}
+	configs    = []*config{cfgRefusal, cfgSeq}
+)
 
 // ---------------------------------------------------------------------------------------------
 
+// last: offset of the last request of the log (applied or refused); lastOK: of the last applied one,
+// i.e. the commit offset of the databases and the newest batch a subscriber can ask for.
 func (in *inst) last() int64 { return int64(len(in.batches)) - 1 }
+
+func (in *inst) lastOK() int64 {
+	for i := in.last(); i >= 0; i-- {
+		if in.refused[i] == nil {
+			return i
+		}
+	}
+	return -1
+}
+
+// a subscriber never waits in this harness: the context is already cancelled, a call that would
+// block (start offset beyond the tracker's last offset) returns context.Canceled instead.
+var noWait = func() context.Context {
+	ctx, cancel := context.WithCancel(context.Background())
+	cancel()
+	return ctx
+}()
 
 // readAll simulates a subscriber that starts at offset start (inclusive) and keeps asking for
 // the next batches until it has caught up with the last applied request. Never blocks: the
@@ -222,8 +455,8 @@ func (in *inst) last() int64 { return int64(len(in.batches)) - 1 }
 func (in *inst) readAll(d kv.DB, start int64) ([]*proto.NotificationBatch, error) {
 	var out []*proto.NotificationBatch
 	next := start
-	for next <= in.last() {
-		res, err := d.ReadNextNotifications(context.Background(), next)
+	for next <= in.lastOK() {
+		res, err := d.ReadNextNotifications(noWait, next)
 		if err != nil {
 			return nil, err
 		}
@@ -244,18 +477,27 @@ func (in *inst) expired(i int64) bool { return in.ts[i] <= in.now-retentionMs }
 
 // subscribers checks the streams returned from every start offset on the primary and on the replica.
 func (in *inst) subscribers() *ev.Violation {
-	last := in.last()
+	last := in.lastOK() // a start offset beyond it would (rightly) wait for the next applied request
 	for o := int64(0); o <= last; o++ {
-		for which, d := range []kv.DB{in.db, in.replica} {
-			name := "primary"
-			if which == 1 {
-				name = "replica"
+		for which, st := range in.stores {
+			d, name := st.db, st.name
+			switch {
+			case st == in.cold:
+				nColdReads.Add(1)
+			case which != 0:
 				nReplicaReads.Add(1)
 			}
 			nReads.Add(1)
+			if in.refused[o] != nil {
+				nResumeInGap.Add(1) // the subscriber's last seen offset is right before a refused request
+			}
 			bs, err := in.readAll(d, o)
 			if err != nil {
-				return viol("read-error", fmt.Sprintf("%s: ReadNextNotifications(%d): %v", name, o, err))
+				key := "read-error"
+				if errors.Is(err, context.Canceled) {
+					key = "read-would-block"
+				}
+				return viol(key, fmt.Sprintf("%s: ReadNextNotifications(%d) with %d the last applied offset: %v", name, o, last, err))
 			}
 			prev := o - 1
 			got := map[int64]bool{}
@@ -264,17 +506,24 @@ func (in *inst) subscribers() *ev.Violation {
 					return viol("stream-order", fmt.Sprintf("%s: stream from %d returned offset %d after %d (offsets %v)", name, o, b.Offset, prev, offsets(bs)))
 				}
 				prev = b.Offset
-				if b.Offset > last {
-					return viol("stream-phantom", fmt.Sprintf("%s: stream from %d returned offset %d, but only %d requests were applied", name, o, b.Offset, last+1))
+				if b.Offset > in.last() {
+					return viol("stream-phantom", fmt.Sprintf("%s: stream from %d returned offset %d, but the log ends at %d", name, o, b.Offset, in.last()))
+				}
+				if in.refused[b.Offset] != nil {
+					return viol("refused-request-notified", fmt.Sprintf("%s: stream from %d delivers batch %s for offset %d, whose request was refused as a whole (%v)", name, o, oxh.RenderNotificationBatch(b), b.Offset, in.refused[b.Offset]))
 				}
 				got[b.Offset] = true
 				if r := oxh.RenderNotificationBatch(b); r != in.batches[b.Offset] {
-					return viol("batch-content-changed", fmt.Sprintf("%s: stream from %d: batch %d is %s, but when the request was applied it was %s", name, o, b.Offset, r, in.batches[b.Offset]))
+					key := "batch-content-changed"
+					if which != 0 {
+						key = "replica-batch-differs" // the primary's copy was validated against the model
+					}
+					return viol(key, fmt.Sprintf("%s: stream from %d: batch %d is %s, but when the request was applied it was %s", name, o, b.Offset, r, in.batches[b.Offset]))
 				}
 				nBatchesChecked.Add(1)
 			}
 			for i := o; i <= last; i++ {
-				required := true
+				required := in.refused[i] == nil
 				if which == 0 && in.expired(i) {
 					// older than the retention time: the primary may have trimmed it
 					required = false
@@ -312,7 +561,9 @@ type effect struct {
 	ranges        []rng
 	putStatus     []proto.Status
 	putVer        []int64
+	putKey        []string // generated key of a sequential put, "" otherwise
 	internalOnly  bool
+	processed     int // refused request: operations processed before the refusing one
 }
 
 func copyRecs(m map[string]rec) map[string]rec {
@@ -323,52 +574,110 @@ func copyRecs(m map[string]rec) map[string]rec {
 	return o
 }
 
-func (in *inst) applyModel(w *proto.WriteRequest, ts uint64) effect {
+// modelSeqKey: the key a sequential put generates, or the sentinel it is refused with
+// (server/kv/db_sequences.go). recs is the state including the earlier operations of the request.
+func modelSeqKey(recs map[string]rec, p *proto.PutRequest) (string, error) {
+	if p.PartitionKey == nil {
+		return "", kv.ErrMissingPartitionKey
+	}
+	// the greatest stored key below "<prefix>-<max>." ; keys with a '/' sort after all keys without one
+	maxKey := fmt.Sprintf("%s-%020d.", p.Key, seqMaxUint)
+	lastKey := ""
+	for k := range recs {
+		if !strings.Contains(k, "/") && k < maxKey && k > lastKey {
+			lastKey = k
+		}
+	}
+	var parts []string
+	if lastKey != "" && strings.HasPrefix(lastKey, p.Key) {
+		parts = strings.Split(strings.TrimPrefix(lastKey, p.Key), "-")[1:]
+	}
+	if len(parts) > len(p.SequenceKeyDelta) {
+		return "", kv.ErrMissingSequenceDeltas
+	}
+	key := p.Key
+	for i, delta := range p.SequenceKeyDelta {
+		if i == 0 && delta == 0 {
+			return "", kv.ErrSequenceDeltaIsZero
+		}
+		lastValue := uint64(0)
+		if i < len(parts) {
+			v, err := strconv.ParseUint(parts[i], 10, 64)
+			if err != nil {
+				return "", kv.ErrInvalidSequenceKey
+			}
+			lastValue = v
+		}
+		if lastValue > seqMaxUint-delta {
+			return "", kv.ErrSequenceOverflow
+		}
+		key = fmt.Sprintf("%s-%020d", key, lastValue+delta)
+	}
+	return key, nil
+}
+
+// applyModel applies the request to the model. A refused request (non-nil error: the sentinel
+// ProcessWrite must answer with) leaves the model untouched, whatever was processed before.
+func (in *inst) applyModel(w *proto.WriteRequest, ts uint64) (effect, error) {
 	e := effect{before: copyRecs(in.recs), delOK: map[string]bool{}, internalOnly: true}
+	recs := copyRecs(in.recs)
+	verNext, sessLive, sessId := in.verNext, in.sessLive, in.sessId
 	for _, p := range w.Puts {
 		if strings.HasPrefix(p.Key, internalPfx) { // session record
-			in.verNext++
-			in.sessLive = true
-			fmt.Sscanf(p.Key, "__oxia/session/%016x", &in.sessId)
+			verNext++
+			sessLive = true
+			fmt.Sscanf(p.Key, "__oxia/session/%016x", &sessId)
 			e.putStatus = append(e.putStatus, proto.Status_OK)
-			e.putVer = append(e.putVer, in.verNext-1)
+			e.putVer = append(e.putVer, verNext-1)
+			e.putKey = append(e.putKey, "")
+			e.processed++
 			continue
 		}
 		e.internalOnly = false
+		key, genKey := p.Key, ""
+		if len(p.SequenceKeyDelta) > 0 {
+			k, err := modelSeqKey(recs, p)
+			if err != nil {
+				return e, err
+			}
+			key, genKey = k, k
+		}
+		e.processed++
+		e.putKey = append(e.putKey, genKey)
 		owner := int64(-1)
 		if p.SessionId != nil {
-			if !in.sessLive || *p.SessionId != in.sessId {
+			if !sessLive || *p.SessionId != sessId {
 				e.putStatus = append(e.putStatus, proto.Status_SESSION_DOES_NOT_EXIST)
 				e.putVer = append(e.putVer, -1)
 				continue
 			}
 			owner = *p.SessionId
 		}
-		r, ok := in.recs[p.Key]
+		r, ok := recs[key]
 		if ok {
 			r.mod++
 		} else {
 			r = rec{cts: ts}
 		}
-		r.ver, r.owner, r.mts = in.verNext, owner, ts
-		in.verNext++
-		in.recs[p.Key] = r
+		r.ver, r.owner, r.mts = verNext, owner, ts
+		verNext++
+		recs[key] = r
 		e.putStatus = append(e.putStatus, proto.Status_OK)
 		e.putVer = append(e.putVer, r.ver)
 	}
 	for _, d := range w.Deletes {
 		if strings.HasPrefix(d.Key, internalPfx) {
-			if d.Key == server.SessionKey(server.SessionId(in.sessId)) {
-				in.sessLive = false
+			if d.Key == server.SessionKey(server.SessionId(sessId)) {
+				sessLive = false
 			}
 			continue
 		}
 		e.internalOnly = false
-		r, ok := in.recs[d.Key]
+		r, ok := recs[d.Key]
 		if !ok || (d.ExpectedVersionId != nil && *d.ExpectedVersionId != r.ver) {
 			continue
 		}
-		delete(in.recs, d.Key)
+		delete(recs, d.Key)
 		e.delOK[d.Key] = true
 	}
 	for _, x := range w.DeleteRanges {
@@ -378,34 +687,36 @@ func (in *inst) applyModel(w *proto.WriteRequest, ts uint64) effect {
 		}
 		e.internalOnly = false
 		e.ranges = append(e.ranges, r)
-		for _, k := range userKeys {
+		for k := range recs {
 			if inRange(r, k) {
-				delete(in.recs, k)
+				delete(recs, k)
 			}
 		}
 	}
+	in.recs, in.verNext, in.sessLive, in.sessId = recs, verNext, sessLive, sessId
 	e.after = copyRecs(in.recs)
-	return e
+	return e, nil
 }
 
 // checkBatch: the batch describes exactly what the request did to user keys.
-func checkBatch(b *proto.NotificationBatch, e effect, off int64, ts uint64) *ev.Violation {
+// The second result names the key of an entry the request does not justify (part 3).
+func checkBatch(b *proto.NotificationBatch, e effect, off int64, ts uint64) (*ev.Violation, string) {
 	if b.Offset != off {
-		return viol("batch-offset", fmt.Sprintf("the batch of the request applied at offset %d carries offset %d", off, b.Offset))
+		return viol("batch-offset", fmt.Sprintf("the batch of the request applied at offset %d carries offset %d", off, b.Offset)), ""
 	}
 	if b.Timestamp != ts {
-		return viol("batch-timestamp", fmt.Sprintf("batch %d carries timestamp %d, the request was applied with %d", off, b.Timestamp, ts))
+		return viol("batch-timestamp", fmt.Sprintf("batch %d carries timestamp %d, the request was applied with %d", off, b.Timestamp, ts)), ""
 	}
 	if b.Shard != shard {
-		return viol("batch-shard", fmt.Sprintf("batch %d carries shard %d", off, b.Shard))
+		return viol("batch-shard", fmt.Sprintf("batch %d carries shard %d", off, b.Shard)), ""
 	}
 	desc := oxh.RenderNotificationBatch(b)
 	for k, n := range b.Notifications {
 		if strings.HasPrefix(k, internalPfx) {
-			return viol("internal-key-notified", fmt.Sprintf("batch %d mentions internal key %q: %s", off, k, desc))
+			return viol("internal-key-notified", fmt.Sprintf("batch %d mentions internal key %q: %s", off, k, desc)), ""
 		}
 		if n.KeyRangeLast != nil && strings.HasPrefix(*n.KeyRangeLast, internalPfx) {
-			return viol("internal-key-notified", fmt.Sprintf("batch %d mentions internal range end %q: %s", off, *n.KeyRangeLast, desc))
+			return viol("internal-key-notified", fmt.Sprintf("batch %d mentions internal range end %q: %s", off, *n.KeyRangeLast, desc)), ""
 		}
 	}
 	// (1) every key the request left behind with a new version is reported with type + version
@@ -420,13 +731,13 @@ func checkBatch(b *proto.NotificationBatch, e effect, off int64, ts uint64) *ev.
 			want = proto.NotificationType_KEY_MODIFIED
 		}
 		if n == nil {
-			return viol("missing-notification:put", fmt.Sprintf("batch %d: key %q was written (version %d) but is not reported: %s", off, k, a.ver, desc))
+			return viol("missing-notification:put", fmt.Sprintf("batch %d: key %q was written (version %d) but is not reported: %s", off, k, a.ver, desc)), ""
 		}
 		if n.Type != want {
-			return viol("wrong-notification-type", fmt.Sprintf("batch %d: key %q existed-before=%v, reported as %v, expected %v: %s", off, k, existed, n.Type, want, desc))
+			return viol("wrong-notification-type", fmt.Sprintf("batch %d: key %q existed-before=%v, reported as %v, expected %v: %s", off, k, existed, n.Type, want, desc)), ""
 		}
 		if n.VersionId == nil || *n.VersionId != a.ver {
-			return viol("wrong-notification-version", fmt.Sprintf("batch %d: key %q now has version %d, notification says %s: %s", off, k, a.ver, fmtOpt(n.VersionId), desc))
+			return viol("wrong-notification-version", fmt.Sprintf("batch %d: key %q now has version %d, notification says %s: %s", off, k, a.ver, fmtOpt(n.VersionId), desc)), ""
 		}
 	}
 	// (2) every key the request removed is reported as deleted or lies in a reported range
@@ -455,7 +766,7 @@ func checkBatch(b *proto.NotificationBatch, e effect, off int64, ts uint64) *ev.
 					}
 				}
 			}
-			return viol(key, fmt.Sprintf("batch %d: key %q was removed by the request but the batch neither reports it deleted nor a range covering it: %s", off, k, desc))
+			return viol(key, fmt.Sprintf("batch %d: key %q was removed by the request but the batch neither reports it deleted nor a range covering it: %s", off, k, desc)), ""
 		}
 	}
 	// (3) nothing else
@@ -464,14 +775,14 @@ func checkBatch(b *proto.NotificationBatch, e effect, off int64, ts uint64) *ev.
 		case proto.NotificationType_KEY_CREATED, proto.NotificationType_KEY_MODIFIED:
 			a, ok := e.after[k]
 			if bf, existed := e.before[k]; !ok || (existed && bf.ver == a.ver) {
-				return viol("spurious-notification:put", fmt.Sprintf("batch %d reports %q as %v but the request did not leave a new version of it: %s", off, k, n.Type, desc))
+				return viol("spurious-notification:put", fmt.Sprintf("batch %d reports %q as %v but the request did not leave a new version of it: %s", off, k, n.Type, desc)), k
 			}
 		case proto.NotificationType_KEY_DELETED:
 			if !e.delOK[k] {
-				return viol("spurious-notification:delete", fmt.Sprintf("batch %d reports %q deleted but no delete of the request removed it: %s", off, k, desc))
+				return viol("spurious-notification:delete", fmt.Sprintf("batch %d reports %q deleted but no delete of the request removed it: %s", off, k, desc)), k
 			}
 			if _, ok := e.after[k]; ok {
-				return viol("spurious-notification:delete", fmt.Sprintf("batch %d reports %q deleted but it exists after the request: %s", off, k, desc))
+				return viol("spurious-notification:delete", fmt.Sprintf("batch %d reports %q deleted but it exists after the request: %s", off, k, desc)), k
 			}
 		case proto.NotificationType_KEY_RANGE_DELETED:
 			ok := false
@@ -481,16 +792,16 @@ func checkBatch(b *proto.NotificationBatch, e effect, off int64, ts uint64) *ev.
 				}
 			}
 			if !ok {
-				return viol("spurious-notification:range-delete", fmt.Sprintf("batch %d reports range [%q,%s) which the request did not delete: %s", off, k, fmtStr(n.KeyRangeLast), desc))
+				return viol("spurious-notification:range-delete", fmt.Sprintf("batch %d reports range [%q,%s) which the request did not delete: %s", off, k, fmtStr(n.KeyRangeLast), desc)), k
 			}
 		default:
-			return viol("unknown-notification-type", desc)
+			return viol("unknown-notification-type", desc), k
 		}
 	}
 	for _, n := range b.Notifications {
 		nTypes[int(n.Type)%4].Add(1)
 	}
-	return nil
+	return nil, ""
 }
 
 func fmtOpt(p *int64) string {
@@ -590,10 +901,10 @@ func (in *inst) recordSoft(v *ev.Violation) {
 		r.hist = h
 		names := make([]string, len(h))
 		for i, o := range h {
-			names[i] = ops[o].name
+			names[i] = in.cfg.ops[o].name
 		}
 		r.v = ev.Violation{Key: v.Key, Harness: "notifications-seq", Message: v.Message,
-			Replay: map[string]any{"config": "db+replica", "ops": names, "indices": h}}
+			Replay: map[string]any{"config": in.cfg.name, "ops": names, "indices": h}}
 	}
 }
 
@@ -602,8 +913,84 @@ func (in *inst) Step(op int) (bool, *ev.Violation) {
 	return en, v
 }
 
+func refusalKind(err error) string {
+	for _, k := range []error{kv.ErrMissingPartitionKey, kv.ErrMissingSequenceDeltas, kv.ErrSequenceDeltaIsZero, kv.ErrInvalidSequenceKey, kv.ErrSequenceOverflow} {
+		if errors.Is(err, k) {
+			return k.Error()
+		}
+	}
+	return "?"
+}
+
+// outcome compares what ProcessWrite answered with what the model expects (want = nil: applied,
+// else the sentinel of the refusal).
+func outcome(st *store, what string, off int64, err, want error) *ev.Violation {
+	switch {
+	case err == nil && want == nil:
+		return nil
+	case err == nil:
+		return viol("model-divergence:refusal-expected", fmt.Sprintf("%s: %s at %d was applied, the model expects it to be refused with %q", st.name, what, off, want))
+	case want == nil && kv.IsInvalidRequestError(err):
+		return viol("model-divergence:unexpected-refusal", fmt.Sprintf("%s: %s at %d was refused (%v), the model expects it to be applied", st.name, what, off, err))
+	case want == nil || !kv.IsInvalidRequestError(err):
+		return viol("apply-error", fmt.Sprintf("%s: ProcessWrite(%s) at %d: %v", st.name, what, off, err))
+	case !errors.Is(err, want):
+		return viol("model-divergence:refusal-kind", fmt.Sprintf("%s: %s at %d was refused with %v, the model expects %q", st.name, what, off, err, want))
+	}
+	return nil
+}
+
+// restartCold: the third replica is closed and reopened before every request; like a controller
+// that starts (leaderController.applyAllEntriesIntoDB, followerController.processCommittedEntries)
+// it then applies again the entries of the log above the commit offset of its database, which can
+// only be refused requests, and skips them.
+func (in *inst) restartCold() *ev.Violation {
+	if err := in.cold.reopen(); err != nil {
+		return viol("reopen-error", err.Error())
+	}
+	nReopens.Add(1)
+	co, err := in.cold.db.ReadCommitOffset()
+	if err != nil {
+		return viol("reopen-error", err.Error())
+	}
+	if co != in.lastOK() {
+		return viol("model-divergence:commit-offset", fmt.Sprintf("reopened replica: commit offset %d, the last applied request is %d", co, in.lastOK()))
+	}
+	for j := co + 1; j <= in.last(); j++ {
+		_, err := in.cold.db.ProcessWrite(in.log[j].CloneVT(), j, uint64(in.ts[j]), server.WrapperUpdateOperationCallback)
+		if err == nil {
+			return viol("refused-request-applied-on-replay", fmt.Sprintf("reopened replica: the request at offset %d (%s) was refused with %q by every replica when it was committed; applied again after a reopen it succeeds", j, in.batches[j], in.refused[j]))
+		}
+		if v := outcome(in.cold, "replay of "+in.batches[j], j, err, in.refused[j]); v != nil {
+			return v
+		}
+		nReplayedRefused.Add(1)
+	}
+	return nil
+}
+
+// guards: commit offset, version id counter and user records of every database equal the model.
+func (in *inst) guards() *ev.Violation {
+	for _, st := range in.stores {
+		co, err := st.db.ReadCommitOffset()
+		if err != nil {
+			return viol("read-error", err.Error())
+		}
+		if co != in.lastOK() {
+			return viol("model-divergence:commit-offset", fmt.Sprintf("%s: commit offset %d, the last applied request is %d", st.name, co, in.lastOK()))
+		}
+		if t := kv.VerifVersionIdTracker(st.db); t != in.verNext-1 {
+			return viol("model-divergence:version-id", fmt.Sprintf("%s: last version id %d, the model has %d", st.name, t, in.verNext-1))
+		}
+		if v := in.records(st.db, st.name); v != nil {
+			return v
+		}
+	}
+	return nil
+}
+
 func (in *inst) step(op int) (bool, *ev.Violation) {
-	o := ops[op]
+	o := in.cfg.ops[op]
 	in.hist = append(in.hist, op)
 	if o.trim != 0 {
 		return in.trimStep(o.trim)
@@ -616,22 +1003,50 @@ func (in *inst) step(op int) (bool, *ev.Violation) {
 	in.now += stepMillis
 	in.clock.Set(in.now)
 	ts := uint64(in.clock.Now().UnixMilli())
-	resp, err := in.db.ProcessWrite(w, off, ts, server.WrapperUpdateOperationCallback)
-	if err != nil {
-		return true, viol("apply-error", fmt.Sprintf("ProcessWrite(%s) at %d: %v", o.name, off, err))
-	}
-	if _, err := in.replica.ProcessWrite(o.build(in, off), off, ts, server.WrapperUpdateOperationCallback); err != nil {
-		return true, viol("apply-error", fmt.Sprintf("replica ProcessWrite(%s) at %d: %v", o.name, off, err))
-	}
-	e := in.applyModel(w, ts)
-	for i, p := range resp.Puts {
-		if p.Status != e.putStatus[i] || (p.Status == proto.Status_OK && p.Version.VersionId != e.putVer[i]) {
-			return true, viol("model-divergence:put-response", fmt.Sprintf("%s at %d: put %d answered %v, model expects %v version %d", o.name, off, i, p, e.putStatus[i], e.putVer[i]))
+	if in.cold != nil && off > 0 {
+		if v := in.restartCold(); v != nil {
+			return true, v
 		}
 	}
+	e, want := in.applyModel(w, ts)
+	for _, st := range in.stores {
+		// the request is modified while it is applied (generated keys): every replica gets its own copy
+		resp, err := st.db.ProcessWrite(w.CloneVT(), off, ts, server.WrapperUpdateOperationCallback)
+		if v := outcome(st, o.name, off, err, want); v != nil {
+			return true, v
+		}
+		if want != nil {
+			continue
+		}
+		for i, p := range resp.Puts {
+			if p.Status != e.putStatus[i] || (p.Status == proto.Status_OK && (p.Version.VersionId != e.putVer[i] || p.GetKey() != e.putKey[i])) {
+				return true, viol("model-divergence:put-response", fmt.Sprintf("%s: %s at %d: put %d answered %v, model expects %v version %d key %q", st.name, o.name, off, i, p, e.putStatus[i], e.putVer[i], e.putKey[i]))
+			}
+		}
+	}
+	in.log = append(in.log, w)
+	in.refused = append(in.refused, want)
 	in.ts = append(in.ts, int64(ts))
+	if want != nil {
+		// refused as a whole: no batch for this offset, now or later; nothing of it is visible
+		in.present = append(in.present, false)
+		in.batches = append(in.batches, fmt.Sprintf("REFUSED %s (%s)", o.name, refusalKind(want)))
+		nRefused.Add(1)
+		if e.processed > 0 {
+			nRefusedAfterOps.Add(1)
+		}
+		for _, p := range w.Puts[:e.processed] {
+			in.leftover[p.Key] = true
+		}
+		c, _ := nRefusedKind.LoadOrStore(refusalKind(want), &atomic.Int64{})
+		c.(*atomic.Int64).Add(1)
+		return true, in.oracles(true)
+	}
 	in.present = append(in.present, true)
 	in.batches = append(in.batches, "")
+	if in.anyRefused() {
+		nWritesAfterRefused.Add(1)
+	}
 	// the batch of this request, as a subscriber positioned right before it receives it
 	bs, err := in.readAll(in.db, off)
 	if err != nil {
@@ -644,8 +1059,15 @@ func (in *inst) step(op int) (bool, *ev.Violation) {
 		}
 		return true, viol(key, fmt.Sprintf("after applying %s at offset %d a subscriber starting there receives %d batches (offsets %v), expected exactly one", o.name, off, len(bs), offsets(bs)))
 	}
-	if v := checkBatch(bs[0], e, off, ts); v != nil {
+	if v, culprit := checkBatch(bs[0], e, off, ts); v != nil {
 		if v.Key != keySameStart {
+			if in.leftover[culprit] {
+				// the entry is what a request that was refused as a whole had done before it was refused
+				v.Key += ":left-by-refused-request"
+			}
+			if in.anyRefused() {
+				v.Message += fmt.Sprintf(" [log before it: %s]", strings.Join(in.batches[:off], " | "))
+			}
 			return true, v
 		}
 		in.recordSoft(v)
@@ -659,13 +1081,16 @@ func (in *inst) step(op int) (bool, *ev.Violation) {
 	if e.internalOnly {
 		nInternalOnlyRequests.Add(1)
 	}
-	if v := in.records(in.db, "primary"); v != nil {
-		return true, v
+	return true, in.oracles(true)
+}
+
+func (in *inst) anyRefused() bool {
+	for _, r := range in.refused {
+		if r != nil {
+			return true
+		}
 	}
-	if v := in.records(in.replica, "replica"); v != nil {
-		return true, v
-	}
-	return true, in.subscribers()
+	return false
 }
 
 func (in *inst) trimStep(mode int) (bool, *ev.Violation) {
@@ -684,16 +1109,27 @@ func (in *inst) trimStep(mode int) (bool, *ev.Violation) {
 			in.now = t
 		}
 	case 3:
-		if t := in.ts[in.last()-1] + retentionMs + stepMillis/2; t > in.now {
+		if t := in.ts[stored[len(stored)-2]] + retentionMs + stepMillis/2; t > in.now {
 			in.now = t
 		}
 	}
-	if in.expired(in.last()) {
+	if in.expired(stored[len(stored)-1]) {
 		return false, nil // not a strict prefix (cannot happen with the clock rules above)
 	}
 	in.clock.Set(in.now)
 	if err := kv.VerifTrimNotifications(in.db, time.Duration(retentionMs)*time.Millisecond, in.clock); err != nil {
-		return true, viol("trim-error", err.Error())
+		// The trimmer's binary search reads the batch at the middle offset of [first stored, last stored]
+		// and gives up with "key not found" when that offset belongs to a refused request (no batch).
+		// The round then removes nothing, which the property allows (expired batches "may" go): it is
+		// counted, the oracle below still checks that nothing was removed or lost. See NOTES.md.
+		gap := false
+		for i := stored[0]; i <= stored[len(stored)-1]; i++ {
+			gap = gap || in.refused[i] != nil
+		}
+		if !gap || !errors.Is(err, kv.ErrKeyNotFound) {
+			return true, viol("trim-error", err.Error())
+		}
+		nTrimGap.Add(1)
 	}
 	in.everTrim = true
 	nTrims.Add(1)
@@ -721,7 +1157,7 @@ func (in *inst) trimStep(mode int) (bool, *ev.Violation) {
 		nTrimsRemoving.Add(1)
 		nTrimmedBatches.Add(int64(removed))
 	}
-	return true, in.subscribers()
+	return true, in.oracles(false)
 }
 
 func (in *inst) Key() string {
@@ -744,9 +1180,9 @@ func (in *inst) Key() string {
 	return b.String()
 }
 
-func spec(depth int, deadline time.Time) seqx.Spec {
-	return seqx.Spec{Name: "notifications-seq", Config: "db+replica", NOps: len(ops), OpName: func(i int) string { return ops[i].name },
-		New: func(int) seqx.Instance { return newInst() }, MaxDepth: depth, Deadline: deadline}
+func spec(cfg *config, nOps, depth int, deadline time.Time) seqx.Spec {
+	return seqx.Spec{Name: "notifications-seq", Config: cfg.name, NOps: nOps, OpName: func(i int) string { return cfg.ops[i].name },
+		New: func(int) seqx.Instance { return newInst(cfg) }, MaxDepth: depth, Deadline: deadline}
 }
 
 func main() {
@@ -757,19 +1193,50 @@ func main() {
 	if *replay != "" {
 		os.Exit(doReplay(*replay))
 	}
+	if pf := os.Getenv("VERIF_CPUPROFILE"); pf != "" {
+		f, _ := os.Create(pf)
+		pprof.StartCPUProfile(f)
+		defer pprof.StopCPUProfile()
+	}
 	run := ev.NewRun("C17", "model_checking")
-	depth, budget := 4, 50*time.Second
+	// per alphabet: depth and the share of the wall-clock budget (the search that is cut says exhaustive:false)
+	depth := map[*config]int{cfgRefusal: 4, cfgSeq: 4}
+	budget := map[*config]time.Duration{cfgRefusal: 30 * time.Second, cfgSeq: 45 * time.Second}
 	if run.Tier == "thorough" {
-		depth, budget = 6, 17*time.Minute
+		depth = map[*config]int{cfgRefusal: 5, cfgSeq: 6}
+		budget = map[*config]time.Duration{cfgRefusal: 6 * time.Minute, cfgSeq: 11 * time.Minute}
 	}
 	if d := os.Getenv("VERIF_DEPTH"); d != "" {
-		fmt.Sscanf(d, "%d", &depth)
+		var n int
+		fmt.Sscanf(d, "%d", &n)
+		depth = map[*config]int{cfgRefusal: n, cfgSeq: n}
 	}
-	sp := spec(depth, time.Now().Add(budget))
-	res := seqx.Explore(sp)
-	seqx.Report(run, sp, res)
-	run.Add("distinct_states", res.States)
-	run.DistinctN(res.States)
+	only := os.Getenv("VERIF_C17_ONLY") // debugging: run one alphabet
+	var states int64
+	for _, cfg := range configs {
+		if only != "" && only != cfg.name {
+			continue
+		}
+		cfg.memoUpTo = depth[cfg]
+		nOps := len(cfg.ops)
+		if run.Tier != "thorough" && cfg.nQuick > 0 && os.Getenv("VERIF_C17_ALLOPS") == "" {
+			nOps = cfg.nQuick
+		}
+		sp := spec(cfg, nOps, depth[cfg], time.Now().Add(budget[cfg]))
+		res := seqx.Explore(sp)
+		seqx.Report(run, sp, res)
+		states += res.States
+		run.Add("states_"+cfg.name, res.States)
+		run.Add("transitions_"+cfg.name, res.Transitions)
+		var names []string
+		for _, o := range cfg.ops[:nOps] {
+			names = append(names, o.name)
+		}
+		run.Coverage["ops_"+cfg.name] = names
+		run.Coverage["max_depth_"+cfg.name] = depth[cfg]
+	}
+	run.Add("distinct_states", states)
+	run.DistinctN(states)
 	var sk []string
 	for k := range soft {
 		sk = append(sk, k)
@@ -783,6 +1250,7 @@ func main() {
 	}
 	run.Add("subscriber_streams_read", nReads.Load())
 	run.Add("replica_streams_read", nReplicaReads.Load())
+	run.Add("reopened_replica_streams_read", nColdReads.Load())
 	run.Add("batches_compared", nBatchesChecked.Load())
 	run.Add("trim_rounds", nTrims.Load())
 	run.Add("trim_rounds_removing_batches", nTrimsRemoving.Load())
@@ -795,33 +1263,44 @@ func main() {
 	run.Add("notifications_key_modified", nTypes[proto.NotificationType_KEY_MODIFIED].Load())
 	run.Add("notifications_key_deleted", nTypes[proto.NotificationType_KEY_DELETED].Load())
 	run.Add("notifications_key_range_deleted", nTypes[proto.NotificationType_KEY_RANGE_DELETED].Load())
-	run.Coverage["max_depth"] = depth
-	run.Coverage["alphabet"] = len(ops)
-	var names []string
-	for _, o := range ops {
-		names = append(names, o.name)
-	}
-	run.Coverage["ops"] = names
+	run.Add("refused_requests", nRefused.Load())
+	run.Add("refused_requests_after_processed_operations", nRefusedAfterOps.Load())
+	nRefusedKind.Range(func(k, v any) bool {
+		run.Add("refused["+strings.TrimPrefix(k.(string), "oxia: ")+"]", v.(*atomic.Int64).Load())
+		return true
+	})
+	run.Add("applied_requests_after_a_refused_one", nWritesAfterRefused.Load())
+	run.Add("resumptions_right_before_a_refused_request", nResumeInGap.Load())
+	run.Add("replica_reopens", nReopens.Load())
+	run.Add("refused_entries_applied_again_after_reopen", nReplayedRefused.Load())
+	run.Add("trim_rounds_failing_on_offset_gap", nTrimGap.Load())
 	run.Sample(map[string]any{"history": []string{"createSession", "ephemeralPut(a)", "put(b)", "sessionCleanup"},
 		"expected_batches": []string{"{}", "{a: KEY_CREATED v1}", "{b: KEY_CREATED v2}", "{a: KEY_DELETED}"}})
 	run.Sample(map[string]any{"history": []string{"put(a)", "put(a)", "deleteRange[a,c)", "trim(oldest stored batch expires)"},
 		"expected": "batch 0 may disappear, a subscriber resuming at 1 still gets 1 and 2: {a: KEY_MODIFIED v1}, {a: KEY_RANGE_DELETED last=c}"})
 	run.Sample(map[string]any{"history": []string{"delete(b)"}, "expected_batches": []string{"{} (empty batch at offset 0)"}})
+	run.Sample(map[string]any{"history": []string{"seqPut(s,[1,1])", "put(a)+seqPut(s,[1])", "put(b)"},
+		"expected_batches": []string{"{s-…01-…01: KEY_CREATED v0}", "none: refused as a whole (missing sequence deltas) after put(a) was processed", "{b: KEY_CREATED v1}"},
+		"on": "live DB, lock-step replica, replica reopened before every request"})
 	run.Assume = []string{
-		"stage 1 is sequential: every request handed to ProcessWrite is committed (uncommitted requests and subscriber/writer races are stage 2)",
+		"stage 1 is sequential: every request handed to ProcessWrite is in the committed log (uncommitted requests and subscriber/writer races are stage 2)",
+		"a request that ProcessWrite refuses as a whole with an error for which kv.IsInvalidRequestError holds (the leader answers the client with the error, every replica skips the entry) is not a committed change: its offset has no batch and nothing of it may show up in a later batch",
 		"notifications are enabled throughout",
 		"request timestamps are taken from a monotone mocked clock (1 s per request, jumps at trimming rounds)",
 		"a batch is 'within the retention time' while timestamp > now - retention; older batches may or may not still be delivered",
 		"when one request writes and then removes the same key, or removes a key more than once, the batch must leave a consumer with the right final picture (removed keys reported deleted or covered by a reported range; surviving keys reported with their final version)",
 	}
-	os.Exit(run.Finish("BFS over all histories up to max_depth from the alphabet (puts/deletes/range deletes on {a,b,a/b}, composite requests, session create / ephemeral put / session cleanup request, empty-effect requests, 3 kinds of trimming round); after every step: content oracle on the new batch against a map model, then a subscriber from every start offset on the DB and on a replica that applied the same log (order, completeness within retention, stable content, no internal keys)"))
+	rc := run.Finish("two BFS searches over all histories up to max_depth. (1) alphabet 'db+replica': puts/deletes/range deletes on {a,b,a/b}, composite requests, session create / ephemeral put / session cleanup request, empty-effect requests, 3 kinds of trimming round. (2) alphabet 'refusals': multi-operation requests on {a,b} and the sequence prefix s, among them requests that are refused as a whole at apply time after some operations were processed (missing sequence deltas, invalid existing sequence key, sequence overflow, zero delta), range delete of the sequence, 2 kinds of trimming round; a third replica is reopened before every request and applies the trailing refused entries again. After every step: content oracle on the new batch against a map model (no batch for a refused request), then a subscriber from every start offset on every replica (order, completeness within retention, stable and identical content, no internal keys, nothing for refused requests)")
+	pprof.StopCPUProfile()
+	os.Exit(rc)
 }
 
 func doReplay(path string) int {
 	var doc struct {
 		First struct {
 			Replay struct {
-				Indices []int `json:"indices"`
+				Config  string `json:"config"`
+				Indices []int  `json:"indices"`
 			} `json:"replay"`
 		} `json:"first"`
 	}
@@ -829,7 +1308,13 @@ func doReplay(path string) int {
 		fmt.Println("cannot read replay:", err)
 		return 2
 	}
-	v := seqx.Replay(spec(0, time.Time{}), doc.First.Replay.Indices)
+	cfg := cfgSeq
+	for _, c := range configs {
+		if c.name == doc.First.Replay.Config {
+			cfg = c
+		}
+	}
+	v := seqx.Replay(spec(cfg, len(cfg.ops), 0, time.Time{}), doc.First.Replay.Indices)
 	if v == nil { // violations the search walks through (see recordSoft)
 		for _, r := range soft {
 			v = &r.v
